@@ -1,2 +1,3 @@
 import Crs.Bytes
 import Crs.Renumber
+import Crs.Copyright
